@@ -70,6 +70,23 @@ PURE_CHECKER = {"pure:pcsaft": ("saft_okb", "saft_ok", "saft_okb_sound"),
                 "pure:saftvrqmie": ("vrq_okb", "vrq_ok", "vrq_okb_sound"),
                 "pure:dippr": ("ideal_okb", "ideal_ok", "ideal_okb_sound")}
 ID_KINDS = ["cas", "name", "iupac_name", "smiles", "inchi", "formula"]
+COQ_KIND = {"cas": "Kcas", "name": "Kname", "iupac_name": "Kiupac", "smiles": "Ksmiles", "inchi": "Kinchi", "formula": "Kformula"}
+# Identifier kinds that must be duplicate free in every pure / chemical file (look-up may use any IdentifierOption).
+# `formula` is never required to be unique (isomers share it).  Documented design exceptions (calibrated on the shipped
+# tree): rehner2020.json holds six water parametrisations that differ only in `name`; the SAFT-VRQ Mie files hold
+# para-/ortho-/normal hydrogen, which the README of that directory tells users to distinguish by `name` only.
+UNIQUE_KINDS_DEFAULT = ["cas", "name", "iupac_name", "smiles", "inchi"]
+UNIQUE_KINDS_EXCEPT = {
+    "pcsaft/rehner2020.json": ["cas", "iupac_name", "smiles", "inchi"],
+    "saftvrqmie/aasen2019.json": ["cas", "smiles", "inchi"],
+    "saftvrqmie/aasen2019_fh2.json": ["cas", "smiles", "inchi"],
+    "saftvrqmie/hammer2023.json": ["cas", "smiles", "inchi"],
+}
+
+
+def unique_kinds(rel):
+    return [k for k in UNIQUE_KINDS_DEFAULT if k not in UNIQUE_KINDS_EXCEPT.get(rel, [])]
+
 CHUNK = 150   # records per data chunk file (large collections are split so that coqc runs in parallel)
 
 
@@ -296,10 +313,41 @@ def req(mods):
     return "From C15gen Require %s.\n" % " ".join(mods)
 
 
-def generate(params_dir, outdir, seg_exceptions=None):
+def uniq_block(rel, ids_expr, kind_exceptions):
+    """obligations: every kind of unique_kinds(rel) other than name is duplicate free in `ids_expr` (a list ident);
+    returns (coq text, number of obligations)"""
+    t = ""
+    nob = 0
+    for k in unique_kinds(rel):
+        if k == "name":
+            continue
+        K = COQ_KIND[k]
+        exc = kind_exceptions.get((rel, k), [])
+        t += ('Eval vm_compute in ("DUPKIND", %s, %s, let ns := keys (get_kind %s) (%s) in filter (fun n => Nat.ltb 1 (List.length (filter (String.eqb n) ns))) ns).\n'
+              % (cstr(rel), cstr(k), K, ids_expr))
+        if exc:
+            e = "[" + "; ".join(cstr(x) for x in exc) + "]"
+            t += "Lemma uniq_%s : kind_uniqb %s %s (%s) = true.\nProof. vm_compute. reflexivity. Qed.\n" % (k, K, e, ids_expr)
+            t += ("Theorem shipped_uniq_%s : NoDup (filter (fun v => negb (memb v %s)) (keys (get_kind %s) (%s))).\n"
+                  "Proof. exact (kind_uniqb_sound _ _ _ uniq_%s). Qed.\n" % (k, e, K, ids_expr, k))
+            # the full-strength statement is refuted by the listed values
+            t += ("Lemma uniq_%s_full_strength_refuted : forallb (fun x => Nat.ltb 1 (List.length (filter (String.eqb x) (keys (get_kind %s) (%s))))) %s = true.\n"
+                  "Proof. vm_compute. reflexivity. Qed.\n" % (k, K, ids_expr, e))
+            nob += 3
+        else:
+            t += "Lemma uniq_%s : kind_uniqb %s [] (%s) = true.\nProof. vm_compute. reflexivity. Qed.\n" % (k, K, ids_expr)
+            t += ("Theorem shipped_uniq_%s : NoDup (keys (get_kind %s) (%s))\n"
+                  "  /\\ forall p x, In p (%s) -> get_kind %s p = Some x -> lookup (get_kind %s) x (%s) = Some p.\n"
+                  "Proof. exact (kind_uniqb_lookup _ _ uniq_%s). Qed.\n" % (k, K, ids_expr, ids_expr, K, K, ids_expr, k))
+            nob += 2
+    return t, nob
+
+
+def generate(params_dir, outdir, seg_exceptions=None, kind_exceptions=None):
     """translate everything.  seg_exceptions: {segment file: [segment ids recorded as known findings]}.
     returns dict(files=[{file, kind, records|error}], unknown=[...], phases=[[mods], [mods], [mods]], checks={mod: meta})"""
     seg_exceptions = seg_exceptions or {}
+    kind_exceptions = kind_exceptions or {}
     os.makedirs(outdir, exist_ok=True)
     files, unknown, missing = [], [], []
     listing = {}
@@ -353,9 +401,11 @@ def generate(params_dir, outdir, seg_exceptions=None):
             t += ("Theorem shipped_ok : Forall %s data /\\ NoDup (names data)\n"
                   "  /\\ (forall r k, In r data -> p_name r = Some k -> lookup p_name k data = Some r).\n"
                   "Proof. exact (collection_okb_sound _ _ %s _ check). Qed.\n" % (ok, sound))
+            ut, un = uniq_block(rel, "pure_ids data", kind_exceptions)
+            t += ut
             write(os.path.join(outdir, mod + ".v"), t)
             phase2.append(mod)
-            checks[mod] = {"what": "pure collection", "file": rel, "obligations": 2}
+            checks[mod] = {"what": "pure collection", "file": rel, "obligations": 2 + un}
         elif kind.startswith("segment:"):
             mod = "S_" + modname(rel)
             t = HEAD + req([D(rel)]) + "Definition data := %s.data.\n" % D(rel)
@@ -401,6 +451,21 @@ def generate(params_dir, outdir, seg_exceptions=None):
             t += "Lemma refs%d : bin_refs_okb coll%d data = true.\nProof. vm_compute. reflexivity. Qed.\n" % (ci, ci)
             t += "Theorem shipped_refs%d : bin_refs_ok coll%d data.\nProof. exact (bin_refs_okb_sound _ _ refs%d). Qed.\n" % (ci, ci, ci)
             nob += 2
+            # every identifier kind: the whole binary identifier agrees with one record of the collection
+            t += "Definition collids%d := pure_ids (%s).\n" % (ci, coll)
+            t += ('Eval vm_compute in ("BADIDS", %s, %d, map (fun b => (b_id1 b, b_id2 b)) (filter (fun b => negb (bin_ids_okb collids%d [b])) data)).\n'
+                  % (cstr(rel), ci, ci))
+            t += "Lemma ids%d : bin_ids_okb collids%d data = true.\nProof. vm_compute. reflexivity. Qed.\n" % (ci, ci)
+            t += "Theorem shipped_ids%d : bin_ids_ok collids%d data.\nProof. exact (bin_ids_okb_sound _ _ ids%d). Qed.\n" % (ci, ci, ci)
+            nob += 2
+            ukinds = [k for k in UNIQUE_KINDS_DEFAULT if all(k in unique_kinds(f) and not kind_exceptions.get((f, k)) for f in c)]
+            for k in ukinds:
+                K = COQ_KIND[k]
+                t += "Lemma colluniq%d_%s : kind_nodupb %s collids%d = true.\nProof. vm_compute. reflexivity. Qed.\n" % (ci, k, K, ci)
+                t += ("Theorem shipped_lookup%d_%s : Forall (fun r => forall b, b = b_id1 r \\/ b = b_id2 r -> forall x, get_kind %s b = Some x ->\n"
+                      "    exists p, lookup (get_kind %s) x collids%d = Some p /\\ agrees b p) data.\n"
+                      "Proof. exact (bin_lookup_any_kind _ _ %s ids%d colluniq%d_%s). Qed.\n" % (ci, k, K, K, ci, K, ci, ci, k))
+                nob += 2
         t += ('Eval vm_compute in ("DUPPAIRS", %s, let ps := bin_pairs data in filter (fun p => Nat.ltb 1 (List.length (filter (same_pairb p) ps))) ps).\n' % cstr(rel))
         t += "Lemma pairs : pairs_distinctb (bin_pairs data) = true.\nProof. vm_compute. reflexivity. Qed.\n"
         t += ("Theorem shipped_pairs : ForallOrdPairs (fun p q => ~ same_pair p q) (bin_pairs data).\n"
@@ -435,9 +500,11 @@ def generate(params_dir, outdir, seg_exceptions=None):
         t += "Lemma check : nodupb (chem_names chems) && (List.length (chem_names chems) =? List.length chems)%nat = true.\nProof. vm_compute. reflexivity. Qed.\n"
         t += ("Theorem shipped_ok : NoDup (chem_names chems).\n"
               "Proof. apply nodupb_NoDup. pose proof check as H. apply andb_prop in H. exact (proj1 H). Qed.\n")
+        ut, un = uniq_block(GC_SUBSTANCES, "map c_id chems", kind_exceptions)
+        t += ut
         write(os.path.join(outdir, mod + ".v"), t)
         phase2.append(mod)
-        checks[mod] = {"what": "gc substances", "file": GC_SUBSTANCES, "obligations": 2}
+        checks[mod] = {"what": "gc substances", "file": GC_SUBSTANCES, "obligations": 2 + un}
         for table in HOMO_TABLES:
             if table not in listing:
                 continue
